@@ -17,7 +17,20 @@ pub fn run_setup(subseed: u64, start_s: i64) {
     interpose::rand_deterministic(subseed);
     arm_nonce(subseed);
     let _ = rustic_core::verif::take_probes();
+    // tuning knob, varied per scenario: the indexer saves an index file after this many blobs
+    // (built-in: 50 000, which no scenario of affordable size reaches). A quarter of the scenarios use a
+    // small value, so that commands write several index files and the flush happens in the middle of a run.
+    let h = crate::rng::hash64(&[b"knob:indexer-max-count", &subseed.to_le_bytes()]);
+    let knob = match h % 8 {
+        0 => 1 + (h >> 8) as usize % 4,
+        1 => 5 + (h >> 8) as usize % 60,
+        _ => 0,
+    };
+    rustic_core::verif::set_indexer_max_count(knob);
+    KNOB_INDEXER.store(knob, std::sync::atomic::Ordering::SeqCst);
 }
+
+pub static KNOB_INDEXER: std::sync::atomic::AtomicUsize = std::sync::atomic::AtomicUsize::new(0);
 
 /// Epoch of the nonce PRF: the number of gate releases so far (scheduled mode) plus the number of
 /// store operations performed while no scheduler is active (free mode).
